@@ -1066,3 +1066,54 @@ Example impl_where_example :
   impl_where_clause 2 (enum_bounds [[(0, TrDebug)]; []; [(1, TrDebug); (0, TrDisplay)]])%nat =
   [WUser 0; WUser 1; WField (0, (0, TrDebug)); WField (2, (1, TrDebug)); WField (2, (0, TrDisplay))]%nat.
 Proof. reflexivity. Qed.
+
+(* ================================================================== 12. contains_generics on qualified paths *)
+
+Lemma contains_generics_no_params t : contains_generics [] t = false.
+Proof. destruct t; reflexivity. Qed.
+
+(** [<Q as Tr<..A..>>::Assoc]: a parameter in the TRAIT's arguments makes the type generic, whatever Q is *)
+Lemma qpath_generic_in_trait_args ps q tr a assoc :
+  contains_generics ps a = true ->
+  contains_generics ps (SPath q [(tr, [a]); (assoc, [])]) = true.
+Proof.
+  intros H. destruct ps as [|p ps]; [now rewrite ?contains_generics_no_params in H|].
+  cbn -[in_params]. rewrite H. cbn. now rewrite orb_true_r.
+Qed.
+
+(** [<Q as Tr>::Assoc<..A..>] (a generic associated type): a parameter in the associated type's own arguments *)
+Lemma qpath_generic_in_assoc_args ps q tr a assoc :
+  contains_generics ps a = true ->
+  contains_generics ps (SPath q [(tr, []); (assoc, [a])]) = true.
+Proof.
+  intros H. destruct ps as [|p ps]; [now rewrite ?contains_generics_no_params in H|].
+  cbn -[in_params]. rewrite H. cbn. now rewrite !orb_true_r.
+Qed.
+
+(** [<..Q.. as Tr>::Assoc]: a parameter in the self type *)
+Lemma qpath_generic_in_self ps q segs :
+  contains_generics ps q = true -> contains_generics ps (SPath (Some q) segs) = true.
+Proof.
+  intros H. destruct ps as [|p ps]; [now rewrite ?contains_generics_no_params in H|]. cbn -[in_params]. now rewrite H.
+Qed.
+
+(** [T::Assoc] *)
+Lemma assoc_of_param_generic ps t assoc :
+  in_params ps t = true -> contains_generics ps (SPath None [(t, []); (assoc, [])]) = true.
+Proof.
+  intros H. destruct ps as [|p ps]; [now rewrite ?contains_generics_no_params in H|]. cbn -[in_params]. now rewrite H.
+Qed.
+
+(** a parameter itself *)
+Lemma param_generic ps t : in_params ps t = true -> contains_generics ps (SPath None [(t, [])]) = true.
+Proof. intros H. destruct ps as [|p ps]; [now rewrite ?contains_generics_no_params in H|]. cbn -[in_params]. now rewrite H. Qed.
+
+Example contains_generics_examples :
+  let T := [84] in let ps := [T] in
+  let heap := SPath None [([72], [])] in let pT := SPath None [(T, [])] in
+  contains_generics ps (SPath (Some heap) [([83], [pT]); ([79], [])]) = true /\      (* <H as S<T>>::O *)
+  contains_generics ps (SPath (Some heap) [([70], []); ([79], [pT])]) = true /\      (* <H as F>::O<T> *)
+  contains_generics ps (SPath (Some (SPath None [([86], [pT])])) [([80], []); ([79], [])]) = true /\   (* <V<T> as P>::O *)
+  contains_generics ps (SPath (Some heap) [([83], [heap]); ([79], [])]) = false /\   (* <H as S<H>>::O *)
+  contains_generics ps (SPath None [([120], []); (T, [])]) = false.                  (* x::T is not the parameter *)
+Proof. repeat split. Qed.
